@@ -2370,7 +2370,14 @@ class Tensor(object):
             len(rep) > self.dim()
         ):  # If requested, we add trailing new dimensions. We use CP as is cheaper
             for n in range(self.dim(), len(rep)):
-                t.cores.append(torch.ones(rep[n], self.cores[-1].shape[-1]))
+                t.cores.append(
+                    torch.ones(
+                        rep[n],
+                        self.cores[-1].shape[-1],
+                        dtype=self.cores[-1].dtype,
+                        device=self.cores[-1].device,
+                    )
+                )
                 t.Us.append(None)
         for n in range(self.dim()):
             if t.Us[n] is not None:
